@@ -327,3 +327,18 @@ impl Signal {
         }
     }
 }
+
+
+/// gives the scheduler one chance to run something else (the transport, the peer) before the task goes on
+pub fn yield_once() -> impl Future<Output = ()> {
+    let mut done = false;
+    std::future::poll_fn(move |cx| {
+        if done {
+            Poll::Ready(())
+        } else {
+            done = true;
+            cx.waker().wake_by_ref();
+            Poll::Pending
+        }
+    })
+}
